@@ -275,6 +275,12 @@ def explore(ctx, drv, model, cases, search=False):
         # ---- the property on the library's outputs
         for item in vlib_split(oracle):
             nm = item.split("(")[0]
+            if nm in ("float", "longdouble", "float-init"):
+                # the float / long double evaluators are only compared loosely with the double one; without an independent
+                # evaluator at those precisions a disagreement cannot be told from ill-conditioning (underflow in float,
+                # asech(tanh(e^3)) = asech(1 - 7e-18), ...): counted, not judged
+                ctx.cov["_variant_" + nm] = ctx.cov.get("_variant_" + nm, 0) + 1
+                continue
             key = "C14/" + nm
             ctx.violation(key, "history `%s`: %s" % (case[:400], item[:300]), {"case": case, "impl": line[:600], "model": m})
     if not search:
@@ -323,6 +329,8 @@ def run(ctx):
         extra = [gen_pow_history(rng) for _ in range(600)] + [gen_history(rng, "thorough") for _ in range(900)]
         explore(ctx, drv, model, extra, search=True)
     soft = ctx.cov.pop("_soft", 0)
+    ctx.cov["float_variant_disagreements_not_judged"] = ctx.cov.pop("_variant_float", 0) + ctx.cov.pop("_variant_float-init", 0)
+    ctx.cov["longdouble_variant_disagreements_not_judged"] = ctx.cov.pop("_variant_longdouble", 0)
     ctx.cov.pop("_seen", None)
     ctx.cov.pop("_dis", None)
     ctx.cov["rule"] = ("histories on one LLVMDoubleVisitor: init(inputs, outputs, symbolic_cse, opt_level) with outputs over up to 3 input symbols "
@@ -340,7 +348,8 @@ def run(ctx):
         "square-and-multiply chain of compiler-rt's __powidf2 (x86-64, LLVM 14); the model interprets the libm symbols with the same glibc (OCaml Stdlib)",
         "the result of SymEngine::cse and the expressions RewriteTrigVisitor builds with div(), tan(), ... are inputs of the model (dumped by the driver, which rebuilds the "
         "rewritten expressions with the public constructors independently of visitor.h)",
-        "LLVMFloatVisitor and LLVMLongDoubleVisitor are only compared loosely with the double evaluator by the driver (TESTING); the long double variant needs MPFR for "
+        "LLVMFloatVisitor and LLVMLongDoubleVisitor are only compared loosely with the double evaluator by the driver and disagreements are COUNTED, not judged "
+        "(no independent evaluator at those precisions: float underflow and cancellation look like disagreements); the long double variant needs MPFR for "
         "Rational / Constant leaves, which this configuration does not have",
         "value oracle: LambdaRealDoubleVisitor (C13) as reference, tolerance 64 x the spread observed when every input moves by one ulp + 1e-9 relative (TESTING)",
     ]
